@@ -125,11 +125,117 @@ def make_case(rng, quick, cap):
     return inputs, output, size_dict, path, tree, ops, raises
 
 
+
+def snapshot(tree):
+    """observable slicing state of a tree (used to detect that a non-inplace derivation touched its parent)"""
+    snap = {"sliced_inds": [(bool(si.inner), si.ind, si.size, si.project) for si in tree.sliced_inds.values()],
+            "multiplicity": tree.multiplicity, "nslices": tree.nslices, "nchunks": tree.nchunks,
+            "sliced_inputs": sorted(tree.sliced_inputs)}
+    try:
+        snap["keys"] = [sorted(tree.slice_key(i).items()) for i in range(min(tree.nslices, 96))]
+    except Exception as e:
+        snap["keys"] = "slice_key raised %r" % (e,)
+    return snap
+
+
+def derive_and_check(ctx, rng, ci, rec, inputs, output, size_dict, tree, ops, add, cap):
+    """derive new trees NON-inplace from the (sliced) tree -- restore_ind / unslice_rand / unslice_all /
+    remove_ind with inplace=False, and copy() followed by the inplace variants -- and keep using the
+    original: the model's state is a value, so the parent must be exactly what its own history says"""
+    ins, out, sz = net_parts(inputs, output, size_dict)
+    before = snapshot(tree)
+    present = sorted({ix for t in inputs for ix in t})
+    for di in range(rng.choice([1, 1, 2, 3])):
+        cur = list(tree.sliced_inds)
+        kinds = ["remove", "copy_remove_"]
+        if cur:
+            kinds += ["restore", "unslice_rand", "unslice_all", "copy_restore_", "copy_unslice_all_", "copy_unslice_rand_"] * 2
+        kind = rng.choice(kinds)
+        ext = []
+        try:
+            if kind in ("restore", "copy_restore_"):
+                ix = rng.choice(cur)
+                if kind == "restore":
+                    d = tree.restore_ind(ix)
+                else:
+                    d = tree.copy()
+                    d.restore_ind_(ix)
+                ext = [("restore", ix)]
+            elif kind in ("unslice_rand", "copy_unslice_rand_"):
+                seed = rng.randrange(10 ** 6)
+                if kind == "unslice_rand":
+                    d = tree.unslice_rand(seed=seed)
+                else:
+                    d = tree.copy()
+                    d.unslice_rand_(seed=seed)
+                gone = [ix for ix in cur if ix not in d.sliced_inds]
+                ext = [("restore", ix) for ix in gone]
+            elif kind in ("unslice_all", "copy_unslice_all_"):
+                if kind == "unslice_all":
+                    d = tree.unslice_all()
+                else:
+                    d = tree.copy()
+                    d.unslice_all_()
+                ext = [("restore", ix) for ix in cur]
+            else:
+                cand = [ix for ix in present if ix not in cur and before["multiplicity"] * size_dict[ix] <= cap]
+                if not cand:
+                    continue
+                ix = rng.choice(cand)
+                proj = rng.randrange(size_dict[ix]) if rng.random() < 0.3 else None
+                if kind == "remove":
+                    d = tree.remove_ind(ix, project=proj)
+                else:
+                    d = tree.copy()
+                    d.remove_ind_(ix, project=proj)
+                ext = [("remove", ix, proj)]
+        except Exception as e:
+            ctx.fail("deriving a tree (%s) from a sliced tree raised %r" % (kind, e), dict(rec, derivation=kind))
+            continue
+        ctx.count("derive_" + kind)
+        drec = dict(rec, derivation=kind, derived_ops=ext)
+        # (a) the parent is untouched
+        after = snapshot(tree)
+        if after != before:
+            ctx.fail("a non-inplace derivation (%s) changed the tree it was derived from: before %r, after %r" % (
+                kind, before, after), drec)
+        # (b) the derived tree is what the model computes for the extended history
+        add("derived%d_%d" % (ci, di),
+            "run_ops %s %s %s %s" % (ins, out, sz, ops_lit(list(ops) + ext)),
+            "mkSS %s %d %s" % (sl_lit(d), d.multiplicity, coq(sorted(d.sliced_inputs))),
+            drec, "state of a tree derived non-inplace (%s)" % kind)
+        add("derived_ok%d_%d" % (ci, di), "sl_ok_b %s %s" % (out, st_lit(d)), "true", drec,
+            "verified checker sl_ok_b on a derived tree (%s)" % kind)
+        # (c) the parent, re-read AFTER the derivation, is still what its own history says
+        add("parent_after%d_%d" % (ci, di),
+            "run_ops %s %s %s %s" % (ins, out, sz, ops_lit(ops)),
+            "mkSS %s %d %s" % (sl_lit(tree), tree.multiplicity, coq(sorted(tree.sliced_inputs))),
+            drec, "state of the parent after a non-inplace derivation (%s)" % kind)
+        # (d) the derived tree contracts correctly as well
+        try:
+            arrays = gen.rand_arrays(rng, inputs, size_dict)
+            import numpy as np
+            dsl = [np.asarray(d.contract_slice(arrays, i)) for i in range(d.nslices)] if d.sliced_inds else [np.asarray(d.contract(arrays))]
+            check_oracle(ctx, rng, drec, inputs, output, size_dict, d, arrays, dsl)
+        except Exception as e:
+            ctx.fail("a derived tree (%s) raised while contracting: %r" % (kind, e), drec)
+
+
 def check_oracle(ctx, rng, rec, inputs, output, size_dict, tree, arrays, slices):
     """end-to-end judgement of the implementation, from the property text only"""
     import numpy as np
     sis = list(tree.sliced_inds.values())
     bad = None
+    # (0) nslices is the number of combinations of the sliced (not projected) index values
+    want_n = 1
+    for s_ in sis:
+        if s_.project is None:
+            want_n *= size_dict[s_.ind]
+    if tree.nslices != want_n or tree.multiplicity != want_n:
+        bad = "nslices %r / multiplicity %r != product of the sliced index sizes %r (sliced_inds %r)" % (
+            tree.nslices, tree.multiplicity, want_n, [(s_.ind, s_.size, s_.project) for s_ in sis])
+        ctx.fail(bad, rec)
+        return bad
     # (1) slice numbers <-> combinations of values, one to one
     keys = [tuple(sorted(tree.slice_key(i).items())) for i in range(tree.nslices)]
     want = set()
@@ -194,6 +300,8 @@ def one_network(ctx, rng, ci, rec, inputs, output, size_dict, tree, ops, raises,
     import numpy as np
     from cotengra.core import get_slice_strides
     ins, out, sz = net_parts(inputs, output, size_dict)
+    # K0: non-inplace derivations from this tree; everything below re-reads the ORIGINAL afterwards
+    derive_and_check(ctx, rng, ci, rec, inputs, output, size_dict, tree, ops, add, 64)
     sl = sl_lit(tree)
     st = st_lit(tree)
     N = tree.nslices
